@@ -350,3 +350,8 @@ package types
 //@ func MediaTypeBase(orig string) (base string)
 //@   props C02 C04
 //@   ensures [parameters-stripped]{C02,C04} !contains(base, ";")
+
+//@ -- the tag grammar of the distribution specification: a word character first, then up to 127 word characters, dots or dashes,
+//@ -- ASCII only.  The handlers are verified with RefTagRE.MatchString as the uninterpreted predicate re_RefTagRE; this clause fixes what
+//@ -- the predicate means: the expression in the code accepts exactly this language (decided by the solver's string theory on every run)
+//@ regexp RefTagRE == "^[a-zA-Z0-9_][a-zA-Z0-9._-]{0,127}$" {C04,C03,C15}
